@@ -45,6 +45,16 @@ def gen_progs(rng, tier):
         if cname == "ovlrmf":
             sets = [["a", "a"], ["a/x", "a/y"], ["a", "a/b/c"]]
             sets = sets if tier != "quick" else sets[:2]
+        if cname in ("mem", "alt", "ovl", "ovlrm"):
+            # the same stackings under FREE-RUNNING OS threads: a thread that finds the lock held (never the case under
+            # the cooperative scheduler)
+            for i, paths in enumerate([["a/b/c", "a/b/d", "x/y", "a"], ["p/q", "r/s", "t/u", "v/w"]]):
+                if cname == "ovlrm":
+                    paths = ["a/" + q for q in paths]
+                threads = [["createdirall " + vfx.ps(target, q)] for q in paths]
+                p = conclib.Prog("c17%sfree%d" % (cname, i), cfg, setup, threads, "stress %d" % (200 if tier == "quick" else 3000))
+                p.paths, p.cname = paths, cname + "free"
+                progs.append(p)
         for i, paths in enumerate(sets):
             threads = [["createdirall " + vfx.ps(target, p)] for p in paths]
             if cname in ("phys", "altphys"):
